@@ -9,6 +9,8 @@ use serde_json::{json, Value};
 
 pub mod adjlist;
 pub mod adjsut;
+pub mod graphmap;
+pub mod visit;
 pub mod unionfind;
 
 pub enum OpFeed<Op> {
@@ -147,6 +149,10 @@ pub fn get(name: &str) -> Option<Box<dyn Engine>> {
         "unionfind" => Box::new(H(unionfind::UnionFindEngine)),
         "graph" => Box::new(H(adjlist::AdjEngine { stable: false, mode: adjlist::Mode::Refine })),
         "stable" => Box::new(H(adjlist::AdjEngine { stable: true, mode: adjlist::Mode::Refine })),
+        "graph-visit" => Box::new(H(adjlist::AdjEngine { stable: false, mode: adjlist::Mode::Visit })),
+        "stable-visit" => Box::new(H(adjlist::AdjEngine { stable: true, mode: adjlist::Mode::Visit })),
+        "graphmap" => Box::new(H(graphmap::GraphMapEngine { visit: false })),
+        "graphmap-visit" => Box::new(H(graphmap::GraphMapEngine { visit: true })),
         _ => return None,
     })
 }
